@@ -52,14 +52,15 @@ class Ctx:
         self.rng = random.Random(seed)
         self.t0 = time.time()
         # one scratch directory per run (two runs of the same check must not wipe each other's files);
-        # directories left behind by runs that died are removed when they are older than two hours
+        # directories left behind by runs that died (their process no longer exists) are removed
         wroot = VERIF / 'work'
         wroot.mkdir(exist_ok=True)
         for old in wroot.glob(prop + '-*'):
             try:
-                if time.time() - old.stat().st_mtime > 7200:
+                pid = old.name.rsplit('-', 1)[1]
+                if pid.isdigit() and not os.path.exists('/proc/' + pid):     # the run that owned it is gone
                     shutil.rmtree(old, ignore_errors=True)
-            except OSError:
+            except (OSError, IndexError):
                 pass
         self.work = wroot / ('%s-%d' % (prop, os.getpid()))
         if self.work.exists():
